@@ -12,7 +12,7 @@ RULE = ('Exhaustive grid: operator in {+ - * / % == != < <= > >= and or, unary +
         'ordered pairs from a per-word-size boundary grid (0, +-1, 2, 127/128, 255/256/257, -128/-129, -255/-256, MIN, '
         'MIN+1, MAX, MAX-1 + seeded random values; bytes 0,1,2,127,128,254,255 + random) x usage position {value, recast '
         'to int, if-branch, while-condition, !truth_is_defeat under try/stop, narrowed to byte and consumed as the index of a byte-array store, narrowed and consumed as a dynamic array length} x word size {2,3,4}. Operands are run-time '
-        'values (elements of mutable global arrays, never folded). Oracle: harness arithmetic (two\'s complement wrap, '
+        'values (elements of mutable global arrays, never folded) held in local variables and, for the unary and binary groups in the value / branch / defeat positions, also in non-const globals, used directly as array elements, and as parameters. Oracle: harness arithmetic (two\'s complement wrap, '
         'signed compare, zero extension, low-byte truncation, truthiness, strict 0/1 booleans, floored / and %); the '
         'positions must also agree with one another. Division by zero pairs are excluded (C05). Non-trivial: pairs with '
         'a value in {MIN, MAX, -1, 127, 128, 255, 256}. Distinct by (operator, types, position, word size, operands).')
@@ -158,16 +158,36 @@ def expect_for(position, res):
         return str(int(v) & 0xFF)
 
 
-def program(ta, tb, xs, ys, stmts, unary=False):
+def program(ta, tb, xs, ys, stmts, unary=False, form='local'):
+    """form: where the operands live when the operator is applied - 'local' variables, non-const 'global' variables,
+    array 'elem'ents used directly, 'param'eters of a function that evaluates the expression."""
+    import re as _re
     decl_a = '%s[] A = [%s];' % (ta, ', '.join(lit(ta, v) for v in xs))
     src = decl_a + '\n' + (SCRATCH if 'T[' in stmts else '')
     if not unary:
         src += '%s[] B = [%s];\n' % (tb, ', '.join(lit(tb, v) for v in ys))
+    zdecl = '' if not unary else ('    int z = 0;\n' if ta != 'byte' else '    int z = x;\n')
+    zero = {'int': '0', 'byte': "'\\0'", 'bool': 'false'}
+    if form == 'global':
+        src += '%s x = %s;\n' % (ta, zero[ta]) + ('' if unary else '%s y = %s;\n' % (tb, zero[tb]))
+        src += 'empty @is_you() {\n  for (int i = 0; i < A.length; i += 1) {\n    x = A[i];\n'
+        if not unary:
+            src += '    y = B[i];\n'
+        src += zdecl + '    ' + stmts + '\n  }\n}\n'
+        return src
+    if form == 'elem':
+        body = _re.sub(r'\by\b', 'B[i]', _re.sub(r'\bx\b', 'A[i]', stmts))
+        zd = _re.sub(r'\bx\b', 'A[i]', zdecl)
+        return src + 'empty @is_you() {\n  for (int i = 0; i < A.length; i += 1) {\n' + zd + '    ' + body + '\n  }\n}\n'
+    if form == 'param':
+        sig = '%s x' % ta + ('' if unary else ', %s y' % tb)
+        src += 'empty @apply(%s) {\n%s    %s\n}\n' % (sig, zdecl, stmts)
+        src += 'empty @is_you() {\n  for (int i = 0; i < A.length; i += 1) {\n    @apply(A[i]%s);\n  }\n}\n' % ('' if unary else ', B[i]')
+        return src
     src += 'empty @is_you() {\n  for (int i = 0; i < A.length; i += 1) {\n    %s x = A[i];\n' % ta
     if not unary:
         src += '    %s y = B[i];\n' % tb
-    else:
-        src += '    int z = 0;\n' if ta != 'byte' else '    int z = x;\n'
+    src += zdecl
     src += '    ' + stmts + '\n  }\n}\n'
     return src
 
@@ -241,7 +261,7 @@ def check_lit_group(stats, ws, kind, op, ta, tb, position, seed):
     return None
 
 
-def check_group(stats, ws, kind, op, ta, tb, position, seed):
+def check_group(stats, ws, kind, op, ta, tb, position, seed, form='local'):
     if kind in ('litright', 'litleft'):
         if kind == 'litleft' and op in '/%':
             return None     # a zero in the run-time grid would fault: covered by C05 and by the run-time/run-time groups
@@ -277,14 +297,16 @@ def check_group(stats, ws, kind, op, ta, tb, position, seed):
     else:
         expr = UNARY_SRC[op] if unary else ('not (x %s y)' % op if notbin else 'x %s y' % op)
     rty = 'bool' if (notbin or arithcmp) else (unop(op, ta, keep[0][0], ws) if unary else binop(op, keep[0][0], keep[0][1], ws))[0]
-    src = program(ta, tb, [p[0] for p in keep], [p[1] for p in keep], body_for(position, expr, rty), unary)
+    src = program(ta, tb, [p[0] for p in keep], [p[1] for p in keep], body_for(position, expr, rty), unary, form)
     r = execute(src, [], ws=ws, S=S0, budget=40_000_000)
     stats.evaluated(len(keep))
     stats.cls('%s_%s' % (kind, position), len(keep))
+    if form != 'local':
+        stats.cls('operands_' + form, len(keep))
     stats.cls('ws%d' % ws, len(keep))
     for (x, y) in keep:
         if interesting(ws, x, y if y is not None else 0):
-            stats.nt('%s:%s:%s:%s:%d:%r:%r' % (op, ta, tb, position, ws, x, y))
+            stats.nt('%s:%s:%s:%s:%d:%r:%r:%s' % (op, ta, tb, position, ws, x, y, form))
     got = r.out.decode('latin-1').split(';')
     if r.out.decode('latin-1') != ''.join(e + ';' for e in exps) or not r.won:
         bad = None
@@ -292,7 +314,7 @@ def check_group(stats, ws, kind, op, ta, tb, position, seed):
             if k >= len(got) or got[k] != e:
                 bad = (x, y, e, got[k] if k < len(got) else None)
                 break
-        msg = 'ws=%d `%s` with x:%s y:%s in position %s: ' % (ws, expr, ta, tb, position)
+        msg = 'ws=%d `%s` with x:%s y:%s (operands: %s) in position %s: ' % (ws, expr, ta, tb, form, position)
         if bad:
             msg += 'x=%r y=%r expected %r got %r' % bad
         else:
@@ -300,8 +322,8 @@ def check_group(stats, ws, kind, op, ta, tb, position, seed):
         if bad:
             # single-pair replay program
             x, y, e, g = bad
-            return {'kind': 'op', 'value': [ws, kind, op, ta, tb, position, x, y], 'message': msg, 'signature': '%s:%s' % (op, position)}
-        return {'kind': 'op', 'value': [ws, kind, op, ta, tb, position, None, None], 'message': msg, 'signature': '%s:%s' % (op, position)}
+            return {'kind': 'op', 'value': [ws, kind, op, ta, tb, position, x, y, form], 'message': msg, 'signature': '%s:%s:%s' % (op, position, form)}
+        return {'kind': 'op', 'value': [ws, kind, op, ta, tb, position, None, None, form], 'message': msg, 'signature': '%s:%s:%s' % (op, position, form)}
     return None
 
 
@@ -365,6 +387,11 @@ def run_shard(desc, seed, tier):
             v = check_group(stats, ws, kind, op, ta, tb, position, seed)
             if v:
                 stats.violation(v)
+            if kind in ('unary', 'binary') and position in ('value', 'if', 'defeat'):
+                for form in ('global', 'elem', 'param'):
+                    v = check_group(stats, ws, kind, op, ta, tb, position, seed, form)
+                    if v:
+                        stats.violation(v)
         if gi % 12 == k:
             stats.sample({'operator': op, 'types': [ta, tb], 'ws': ws, 'positions': POSITIONS})
     stats.exhaustive = True
@@ -376,10 +403,12 @@ def replay(case):
         ws, kind, op, ta, tb, position = case['value']
         v = check_lit_group(Stats(), ws, kind, op, ta, tb, position, 1)
         return v['message'] if v else None
-    ws, kind, op, ta, tb, position, x, y = case['value']
+    vv = case['value']
+    ws, kind, op, ta, tb, position, x, y = vv[:8]
+    form = vv[8] if len(vv) > 8 else 'local'
     st_ = Stats()
     if x is None or kind == 'arithcmp':
-        v = check_group(st_, ws, kind, op, ta, tb, position, 1)
+        v = check_group(st_, ws, kind, op, ta, tb, position, 1, form)
         return v['message'] if v else None
     unary = kind == 'unary'
     res = unop(op, ta, x, ws) if unary else binop(op, x, y, ws)
@@ -388,7 +417,7 @@ def replay(case):
     if kind == 'notbin':
         res = ('bool', not res[1])
     expr = UNARY_SRC[op] if unary else ('not (x %s y)' % op if kind == 'notbin' else 'x %s y' % op)
-    src = program(ta, tb, [x], [y], body_for(position, expr, res[0]), unary)
+    src = program(ta, tb, [x], [y], body_for(position, expr, res[0]), unary, form)
     r = execute(src, [], ws=ws, S=S0)
     exp = expect_for(position, res) + ';'
     if r.out.decode('latin-1') != exp or not r.won:
